@@ -5,6 +5,7 @@ import PyModeS.Proofs.Enum
 import PyModeS.Proofs.Bits
 import PyModeS.Model.Adsb
 import PyModeS.Spec.Velocity
+import PyModeS.Proofs.Fields.Frame
 namespace PyModeS.C09
 open Spec
 
@@ -33,5 +34,240 @@ theorem altitude_diff_partial (bits : Bits) (h : bits.length = 112) (htc : tcB b
 
 theorem altitude_diff_guard (bits : Bits) (htc : tcB bits ≠ some 19) : altitudeDiff bits = .rte := by
   unfold altitudeDiff; simp [htc]
+
+end PyModeS.C09
+
+/-! ## Frame-level field theorems (airborne velocity, surface velocity, routing) -/
+
+namespace PyModeS.C09
+open Spec Fields
+
+/-- signed velocity component: `(N − 1) · mult` kt, negative when the direction bit is set -/
+def signedComp (s : Bool) (v : Nat) (mult : Int) : Int := (if s then -1 else 1) * (((v : Int) - 1) * mult)
+
+/-- vertical rate `±(N − 1) · 64 ft/min`, `None` for N = 0 -/
+def vertRate (s_vr : Bool) (vr : Nat) : Option Int :=
+  if vr = 0 then none else some ((if s_vr then -1 else 1) * ((vr : Int) - 1) * 64)
+
+/-- DO-260B 2.2.3.2.6 airborne velocity, as a function of the encoded fields (written from the
+    property text): `st` subtype, `s_ew`/`v_ew` and `s_ns`/`v_ns` the two sign/magnitude pairs (for
+    subtypes 3-4: heading status/heading and airspeed type/airspeed), `vrsrc`, `s_vr`, `vr`. -/
+def airborneSpec (st : Nat) (s_ew : Bool) (v_ew : Nat) (s_ns : Bool) (v_ns : Nat)
+    (vrsrc s_vr : Bool) (vr : Nat) : Option Velocity :=
+  let src := if vrsrc then "BARO" else "GNSS"
+  if st = 1 ∨ st = 2 then
+    if v_ew = 0 ∨ v_ns = 0 then none
+    else
+      let mult : Int := if st = 2 then 4 else 1
+      let v_we := signedComp s_ew v_ew mult
+      let v_sn := signedComp s_ns v_ns mult
+      some ⟨some (Nat.sqrt (v_we * v_we + v_sn * v_sn).toNat : Nat), Dir.track v_we v_sn, vertRate s_vr vr,
+        "GS", "TRUE_NORTH", src⟩
+  else
+    let mult : Int := if st = 4 then 4 else 1
+    some ⟨if v_ns = 0 then none else some (((v_ns : Int) - 1) * mult),
+      if s_ew then Dir.heading ((v_ew : Rat) / 1024 * 360) else Dir.none,
+      vertRate s_vr vr, if s_ns then "TAS" else "IAS", "MAGNETIC_NORTH", src⟩
+
+/-- **Airborne velocity.** On every 112-bit TC 19 frame `airborne_velocity(msg, source=True)` is the
+    DO-260B function of ME bits 6-8 (subtype) and 14-46 and of nothing else. -/
+theorem airborne_velocity_spec (bits : Bits) (h : bits.length = 112) (htc : tcB bits = some 19) :
+    airborneVelocity bits = .val (airborneSpec
+      (bin2int (slice 37 40 bits)) (bits[45]'(by omega)) (bin2int (slice 46 56 bits))
+      (bits[56]'(by omega)) (bin2int (slice 57 67 bits))
+      (bits[67]'(by omega)) (bits[68]'(by omega)) (bin2int (slice 69 78 bits))) := by
+  unfold airborneVelocity
+  simp only [htc, ne_eq, not_true_eq_false, if_false]
+  rw [bin2intR_slice_drop h 32 5 8 (by omega) (by omega),
+    bin2intR_slice_drop h 32 14 24 (by omega) (by omega),
+    bin2intR_slice_drop h 32 25 35 (by omega) (by omega),
+    bin2intR_slice_drop h 32 37 46 (by omega) (by omega),
+    idxR_drop 32 13 (by omega), idxR_drop 32 24 (by omega), idxR_drop 32 35 (by omega),
+    idxR_drop 32 36 (by omega)]
+  simp only [Nat.reduceAdd]
+  generalize bin2int (slice 37 40 bits) = st
+  generalize bin2int (slice 46 56 bits) = v_ew
+  generalize bin2int (slice 57 67 bits) = v_ns
+  generalize bin2int (slice 69 78 bits) = vr
+  generalize bits[45] = s_ew
+  generalize bits[56] = s_ns
+  generalize bits[67] = vrsrc
+  generalize bits[68] = s_vr
+  by_cases h12 : st = 1 ∨ st = 2
+  · by_cases h1 : v_ew = 0
+    · simp [airborneSpec, h12, h1]
+    · by_cases h2 : v_ns = 0
+      · simp [airborneSpec, h12, h1, h2]
+      · rcases h12 with rfl | rfl
+        · simp [airborneSpec, h1, h2, signedComp, vertRate]
+          exact ⟨by rw [Int.add_comm], by cases vrsrc <;> rfl⟩
+        · simp [airborneSpec, h1, h2, signedComp, vertRate]
+          exact ⟨by rw [Int.add_comm], by cases vrsrc <;> rfl⟩
+  · have h1' : st ≠ 1 := fun e => h12 (Or.inl e)
+    have h2' : st ≠ 2 := fun e => h12 (Or.inr e)
+    simp only [airborneSpec, h1', h2', vertRate, Res.bind_val, Res.pure_eq, if_false]
+    by_cases h4 : st = 4 <;> by_cases h0 : v_ns = 0 <;>
+      cases s_ew <;> cases s_ns <;> cases vrsrc <;> simp [h4, h0]
+
+theorem airborne_velocity_guard (bits : Bits) (htc : tcB bits ≠ some 19) : airborneVelocity bits = .rte := by
+  unfold airborneVelocity; simp [htc]
+
+/-- non-vacuity: two real frames from tests/ (subtype 1: 159 kt ground speed, −832 ft/min;
+    subtype 3: 375 kt TAS, heading 243.98°, −2304 ft/min) satisfy the hypotheses, and the spec gives the
+    documented values. -/
+example : (hex2bin "8D485020994409940838175B284F").length = 112 ∧
+    tcB (hex2bin "8D485020994409940838175B284F") = some 19 ∧
+    airborneSpec 1 true 9 true 160 false true 14 =
+      some ⟨some 159, Dir.track (-8) (-159), some (-832), "GS", "TRUE_NORTH", "GNSS"⟩ ∧
+    airborneVelocity (hex2bin "8D485020994409940838175B284F") =
+      .val (airborneSpec 1 true 9 true 160 false true 14) := by decide +kernel
+
+example : (hex2bin "8DA05F219B06B6AF189400CBC33F").length = 112 ∧
+    tcB (hex2bin "8DA05F219B06B6AF189400CBC33F") = some 19 ∧
+    airborneVelocity (hex2bin "8DA05F219B06B6AF189400CBC33F") =
+      .val (some ⟨some 375, Dir.heading ((15615 : Rat) / 64), some (-2304), "TAS", "MAGNETIC_NORTH", "BARO"⟩) := by
+  decide +kernel
+
+/-! ### surface velocity (TC 5-8) -/
+
+/-- **Surface velocity.** On every 112-bit TC 5-8 frame: the ground speed is the DO-260B movement
+    table of ME bits 6-12 (all 128 codes, `None` for "no information"/reserved), the track is
+    `N·360/128` of ME bits 14-20 when the status bit (ME bit 13) is set and `None` otherwise. -/
+theorem surface_velocity_spec (bits : Bits) (h : bits.length = 112) (tc : Nat) (htc : tcB bits = some tc)
+    (h58 : 5 ≤ tc ∧ tc ≤ 8) :
+    surfaceVelocity bits = .val (movementSpeed (bin2int (slice 37 44 bits)),
+      if bits[44]'(by omega) then some ((bin2int (slice 45 52 bits) : Rat) * 360 / 128) else none) := by
+  unfold surfaceVelocity
+  have hg : ¬ (tc < 5 ∨ tc > 8) := by omega
+  simp only [htc, hg, if_false]
+  rw [idxR_drop 32 12 (by omega), bin2intR_slice_drop h 32 13 20 (by omega) (by omega),
+    bin2intR_slice_drop h 32 5 12 (by omega) (by omega)]
+  simp only [Nat.reduceAdd]
+  have hm : bin2int (slice 37 44 bits) < 128 := bin2int_slice_lt bits 37 44
+  cases hb : bits[44]'(by omega) <;>
+    simp [movement_spec _ hm]
+
+/-- outside TC 5-8 (or outside DF 17/18) `surface_velocity` raises RuntimeError -/
+theorem surface_velocity_guard (bits : Bits) (hg : ∀ tc, tcB bits = some tc → tc < 5 ∨ tc > 8) :
+    surfaceVelocity bits = .rte := by
+  unfold surfaceVelocity
+  cases htc : tcB bits with
+  | none => rfl
+  | some tc => simp [hg tc htc]
+
+/-- non-vacuity: the surface frame of tests/test_adsb.py (19 kt, track 42.2°) -/
+example : (hex2bin "8FC8200A3AB8F5F893096B000000").length = 112 ∧
+    tcB (hex2bin "8FC8200A3AB8F5F893096B000000") = some 7 ∧
+    surfaceVelocity (hex2bin "8FC8200A3AB8F5F893096B000000") = .val (some 19, some ((675 : Rat) / 16)) := by
+  decide +kernel
+
+/-! ### adsb.velocity routing -/
+
+/-- **Routing.** `adsb.velocity` calls `surface_velocity` exactly for TC 5-8, `airborne_velocity`
+    exactly for TC 19, and raises RuntimeError for every other type code and for frames without a
+    type code (DF other than 17/18). -/
+theorem velocity_routing (b : Bits) :
+    (∀ tc, tcB b = some tc → 5 ≤ tc ∧ tc ≤ 8 → velocityRoute b = .val .surface) ∧
+    (tcB b = some 19 → velocityRoute b = .val .airborne) ∧
+    (∀ tc, tcB b = some tc → ¬ (5 ≤ tc ∧ tc ≤ 8) → tc ≠ 19 → velocityRoute b = .rte) ∧
+    (tcB b = none → velocityRoute b = .rte) := by
+  unfold velocityRoute
+  refine ⟨?_, ?_, ?_, ?_⟩
+  · intro tc htc h; simp [htc, h]
+  · intro htc; simp [htc]
+  · intro tc htc h1 h2; simp [htc, h1, h2]
+  · intro htc; simp [htc]
+
+/-- the routing as an "iff": which decoder runs is a function of the type code alone -/
+theorem velocity_routing_iff (b : Bits) :
+    (velocityRoute b = .val .surface ↔ ∃ tc, tcB b = some tc ∧ 5 ≤ tc ∧ tc ≤ 8) ∧
+    (velocityRoute b = .val .airborne ↔ tcB b = some 19) := by
+  unfold velocityRoute
+  cases htc : tcB b with
+  | none => simp
+  | some tc =>
+    by_cases h1 : 5 ≤ tc ∧ tc ≤ 8
+    · simp [h1]; omega
+    · by_cases h2 : tc = 19
+      · simp [h2]
+      · simp [h1, h2]
+
+example : velocityRoute (hex2bin "8FC8200A3AB8F5F893096B000000") = .val .surface ∧
+    velocityRoute (hex2bin "8D485020994409940838175B284F") = .val .airborne ∧
+    velocityRoute (hex2bin "8D406B902015A678D4D220AA4BDA") = .rte := by decide +kernel
+
+end PyModeS.C09
+
+/-! ## Encoder round-trip (DO-260B 2.2.3.2.6.1 layout) -/
+
+namespace PyModeS.C09
+open Spec Fields
+
+/-- DF17/18 airborne-velocity frame: DF, CA, ICAO | TC = 19, subtype, (intent, IFR, NUCr/NACv) |
+    E/W sign+speed (or heading status+heading) | N/S sign+speed (or airspeed type+airspeed) |
+    vertical-rate source, sign, rate | reserved | GNSS-baro difference sign+value | parity -/
+def velFrame (df ca icao st x1 : Nat) (s_ew : Bool) (v_ew : Nat) (s_ns : Bool) (v_ns : Nat)
+    (vrsrc s_vr : Bool) (vr x2 : Nat) (dsign : Bool) (diff parity : Nat) : List (Nat × Nat) :=
+  [(5, df), (3, ca), (24, icao), (5, 19), (3, st), (5, x1), (1, b2n s_ew), (10, v_ew), (1, b2n s_ns),
+   (10, v_ns), (1, b2n vrsrc), (1, b2n s_vr), (9, vr), (2, x2), (1, b2n dsign), (7, diff), (24, parity)]
+
+/-- **Encoder round-trip.** Any field values within their widths, framed per DO-260B with arbitrary
+    CA, ICAO address, reserved/intent bits, altitude-difference field and parity, decode to the spec of
+    exactly those values (and the altitude difference to `±(N−1)·25 ft`). -/
+theorem airborne_velocity_roundtrip (df ca icao st x1 : Nat) (s_ew : Bool) (v_ew : Nat) (s_ns : Bool)
+    (v_ns : Nat) (vrsrc s_vr : Bool) (vr x2 : Nat) (dsign : Bool) (diff parity : Nat)
+    (hdf : df = 17 ∨ df = 18) (hst : st < 8) (hew : v_ew < 1024) (hns : v_ns < 1024) (hvr : vr < 512)
+    (hd : diff < 128) :
+    let bits := build (velFrame df ca icao st x1 s_ew v_ew s_ns v_ns vrsrc s_vr vr x2 dsign diff parity)
+    bits.length = 112 ∧ tcB bits = some 19 ∧
+    airborneVelocity bits = .val (airborneSpec st s_ew v_ew s_ns v_ns vrsrc s_vr vr) ∧
+    altitudeDiff bits = .val (if diff = 0 ∨ diff = 127 then none
+      else some ((if dsign then -1 else 1) * ((diff : Int) - 1) * 25)) := by
+  intro bits
+  have hlen : bits.length = 112 := by
+    show (build _).length = 112
+    simp [build_length, velFrame]
+  have sb := slice_build (velFrame df ca icao st x1 s_ew v_ew s_ns v_ns vrsrc s_vr vr x2 dsign diff parity)
+  have hfl : (velFrame df ca icao st x1 s_ew v_ew s_ns v_ns vrsrc s_vr vr x2 dsign diff parity).length = 17 := rfl
+  have f0 : slice 0 5 bits = natToBits 5 df := by
+    simpa [bits, velFrame, offset] using sb 0 (by omega)
+  have f3 : slice 32 37 bits = natToBits 5 19 := by
+    simpa [bits, velFrame, offset] using sb 3 (by omega)
+  have f4 : slice 37 40 bits = natToBits 3 st := by
+    simpa [bits, velFrame, offset] using sb 4 (by omega)
+  have f6 : slice 45 46 bits = natToBits 1 (b2n s_ew) := by
+    simpa [bits, velFrame, offset] using sb 6 (by omega)
+  have f7 : slice 46 56 bits = natToBits 10 v_ew := by
+    simpa [bits, velFrame, offset] using sb 7 (by omega)
+  have f8 : slice 56 57 bits = natToBits 1 (b2n s_ns) := by
+    simpa [bits, velFrame, offset] using sb 8 (by omega)
+  have f9 : slice 57 67 bits = natToBits 10 v_ns := by
+    simpa [bits, velFrame, offset] using sb 9 (by omega)
+  have f10 : slice 67 68 bits = natToBits 1 (b2n vrsrc) := by
+    simpa [bits, velFrame, offset] using sb 10 (by omega)
+  have f11 : slice 68 69 bits = natToBits 1 (b2n s_vr) := by
+    simpa [bits, velFrame, offset] using sb 11 (by omega)
+  have f12 : slice 69 78 bits = natToBits 9 vr := by
+    simpa [bits, velFrame, offset] using sb 12 (by omega)
+  have f14 : slice 80 81 bits = natToBits 1 (b2n dsign) := by
+    simpa [bits, velFrame, offset] using sb 14 (by omega)
+  have f15 : slice 81 88 bits = natToBits 7 diff := by
+    simpa [bits, velFrame, offset] using sb 15 (by omega)
+  have htc : tcB bits = some 19 := tcB_of_slices hdf (by omega) f0 f3
+  have b45 : bits[45]'(by omega) = s_ew := getElem_of_slice (by omega) (by rw [f6, natToBits_one])
+  have b56 : bits[56]'(by omega) = s_ns := getElem_of_slice (by omega) (by rw [f8, natToBits_one])
+  have b67 : bits[67]'(by omega) = vrsrc := getElem_of_slice (by omega) (by rw [f10, natToBits_one])
+  have b68 : bits[68]'(by omega) = s_vr := getElem_of_slice (by omega) (by rw [f11, natToBits_one])
+  have b80 : bits[80]'(by omega) = dsign := getElem_of_slice (by omega) (by rw [f14, natToBits_one])
+  refine ⟨hlen, htc, ?_, ?_⟩
+  · rw [airborne_velocity_spec bits hlen htc, f4, f7, f9, f12, b45, b56, b67, b68,
+      bin2int_natToBits_of_lt (by omega : st < 2 ^ 3), bin2int_natToBits_of_lt (by omega : v_ew < 2 ^ 10),
+      bin2int_natToBits_of_lt (by omega : v_ns < 2 ^ 10), bin2int_natToBits_of_lt (by omega : vr < 2 ^ 9)]
+  · rw [altitude_diff_partial bits hlen htc]
+    simp only [f15, b80, bin2int_natToBits_of_lt (by omega : diff < 2 ^ 7)]
+
+/-- non-vacuity: the frame of tests/test_adsb.py is such an encoding (ICAO 485020, parity 5B284F) -/
+example : bitsToHexU (build (velFrame 17 5 0x485020 1 8 true 9 true 160 false true 14 0 false 23 0x5B284F)) =
+    "8D485020994409940838175B284F" := by decide +kernel
 
 end PyModeS.C09
